@@ -14,11 +14,11 @@ MODEL_OK = "C06.model_ok"
 SPEC_OK = "C06.spec_ok"
 EXHAUSTIVE = {"quick": False, "thorough": True}
 SHARD = 400
-RULE = ("small scope: every run layout with <= 3 runs of 0..3 characters (85 layouts: no runs, empty runs, distinct "
+RULE = ("small scope: every run layout with <= 3 runs of 0..3 characters and every layout with 4 runs of 0..2 characters (166 layouts: no runs, empty runs, distinct "
         "characters and attributes per run) x every pair of slice bounds in [-len-2, len+2] u {None} and every int "
         "index in [-len-2, len+2] (thorough: all of them; quick: all int indices and a seeded sample of the bound "
         "pairs); f+x and x+f (x a str or a FmtStr, incl. '' / FmtStr() / empty runs / a lone ESC), f*n for n in -1..3, "
-        "sep.join(items) for lists of 0..4 str/FmtStr items; random larger FmtStrs (<= 6 runs, <= 8 chars, control / "
+        "sep.join(items) for all lists of 0..3 items drawn from 9 str/FmtStr values (quick: a sample); random larger FmtStrs (<= 6 runs, <= 8 chars, control / "
         "wide / combining characters, explicit False attributes) with random bounds; a small stream of slices with a "
         "step (NotImplementedError, model only). observation: per-character (char, attributes) list of the result, "
         "len(result), exception class. non-trivial = an operand has at least one character; distinct = distinct input")
@@ -33,12 +33,12 @@ ASSUMPTIONS = ["operands of + and items of join are str or FmtStr (other types: 
                "+ has no such restriction (Chunk(other), no parsing)",
                "slices without a step (a step raises NotImplementedError; modelled, outside the property)"]
 
-ATTS = [[2, 0, 0, 0, 0, 0, 0, 0], [0, 5, 1, 0, 0, 0, 0, 0], [3, 0, 0, 0, 1, 2, 0, 0]]
+ATTS = [[2, 0, 0, 0, 0, 0, 0, 0], [0, 5, 1, 0, 0, 0, 0, 0], [3, 0, 0, 0, 1, 2, 0, 0], [0, 0, 0, 0, 0, 0, 0, 0]]
 LETTERS = "abcdefghi"
 
 
-def layouts(maxruns=3, maxlen=3):
-    for k in range(maxruns + 1):
+def layouts(maxruns=3, maxlen=3, minruns=0):
+    for k in range(minruns, maxruns + 1):
         for lens in itertools.product(range(maxlen + 1), repeat=k):
             runs, pos = [], 0
             for i, n in enumerate(lens):
@@ -66,7 +66,8 @@ def all_operands():
 
 def generate(rng, tier):
     thorough = tier == "thorough"
-    lays = list(layouts())
+    # 85 layouts with <= 3 runs of <= 3 characters + 81 layouts with 4 runs of <= 2 characters
+    lays = list(layouts()) + list(layouts(4, 2, 4))
     # 1. indexing and slicing, small scope
     slices = []
     for runs in lays:
@@ -95,8 +96,8 @@ def generate(rng, tier):
     for sep in seps:
         for k in range(0, 4):
             combos = list(itertools.product(ops, repeat=k))
-            if len(combos) > (150 if thorough else 25):
-                combos = rng.sample(combos, 150 if thorough else 25)
+            if not thorough and len(combos) > 25:
+                combos = rng.sample(combos, 25)
             for items in combos:
                 if any(o[0] == "str" and "\x1b[" in o[1] for o in items):
                     continue
@@ -150,13 +151,25 @@ def build_operand(o):
 def observe(r):
     if not isinstance(r, canon.FmtStr):
         raise canon.Unrepresentable("result is %r" % (type(r),))
-    return [[[ch, list(st)] for ch, st in canon.cells_of(canon.canon_fs(r))], len(r)]
+    # cells from the runs, len(), and the text as the memoised .s reports it
+    return [[[ch, list(st)] for ch, st in canon.cells_of(canon.canon_fs(r))], len(r), r.s]
+
+
+def _pre(inp, objs):
+    """for half of the cases (chosen by a hash of the input, so that it replays) the operands'
+    memoised views are filled before the operation: stale or wrongly derived caches then show"""
+    import zlib
+    if zlib.crc32(repr(inp).encode()) & 1:
+        for o in objs:
+            if isinstance(o, canon.FmtStr):
+                canon.observe(o, ["s", "len", "str", "width"])
 
 
 def run(inp):
     kind = inp[0]
     f = canon.build_fs(inp[1])
     if kind == "get":
+        _pre(inp, [f])
         ix = inp[2]
         if ix[0] == "i":
             return canon.outcome(lambda: f[ix[1]], observe)
@@ -165,18 +178,22 @@ def run(inp):
         return canon.outcome(lambda: f[ix[1]:ix[2]:ix[3]], observe)
     if kind == "add":
         x = build_operand(inp[2])
+        _pre(inp, [f, x])
         return canon.outcome(lambda: f + x, observe)
     if kind == "radd":
         x = build_operand(inp[2])
+        _pre(inp, [f, x])
         # str + FmtStr dispatches to FmtStr.__radd__; for FmtStr + FmtStr Python never
         # gets there, so the method is called directly
         if inp[2][0] == "str":
             return canon.outcome(lambda: x + f, observe)
         return canon.outcome(lambda: f.__radd__(x), observe)
     if kind == "mul":
+        _pre(inp, [f])
         return canon.outcome(lambda: f * inp[2], observe)
     if kind == "join":
         items = [build_operand(o) for o in inp[2]]
+        _pre(inp, [f] + items)
         return canon.outcome(lambda: f.join(items), observe)
     raise ValueError(kind)
 
@@ -194,11 +211,7 @@ def coq_index(ix):
 
 
 def coq_out(out):
-    return coq_res(out, lambda v: "(%s, %s)" % (coq_cells([(chr_(c), st) for c, st in v[0]]), coq_z(v[1])))
-
-
-def chr_(c):
-    return c
+    return coq_res(out, lambda v: "(%s, %s, %s)" % (coq_cells([(c, st) for c, st in v[0]]), coq_z(v[1]), coq_str(v[2])))
 
 
 def to_coq(inp, out):
@@ -308,7 +321,7 @@ LEVEL_TEXT = ("Machine-checked theorems (Coq) for ALL FmtStrs (any number of run
               "cells(sep.join(xs)) = the interleaving; len(f) = number of cells; with the text-level corollaries. The model "
               "follows normalize_slice / the __getitem__ run walk with its counter, whole-run reuse and early break / "
               "__add__ / __radd__ / sum-based __mul__ / join, and is compared in Coq with the real implementation on the "
-              "complete small scope (85 layouts x all bound pairs in [-len-2,len+2] u {None} x all int indices) in the "
+              "complete small scope (166 layouts x all bound pairs in [-len-2,len+2] u {None} x all int indices) in the "
               "thorough tier and a seeded sample of it in the quick tier, plus random larger cases")
 LEVEL_NOTE = ("Trusted: Coq kernel+vm_compute, the reference list semantics Spec/ListOps.v, the canonicaliser. Modelled not "
               "verified: built-in str slicing, list concatenation, sum(), isinstance dispatch; operands other than "
